@@ -358,7 +358,12 @@ def main():
     for i, (c, o) in enumerate(zip(cases, obs)):
         if isinstance(o, dict) and "__harness_exc__" in o:
             continue
-        t = mod.coq_case(c, o)
+        try:
+            t = mod.coq_case(c, o)
+        except Exception as e:  # the observation has a shape the model cannot even express: counts as a disagreement
+            obs[i] = o = {"__harness_exc__": f"coq_case: {type(e).__name__}: {e}", "__tb__": traceback.format_exc()[-800:], "observed": o}
+            harness_errs.append((i, o))
+            continue
         if t is not None:
             terms.append(t); term_idx.append(i)
     t0 = time.time()
@@ -371,8 +376,17 @@ def main():
     viol = []  # (index, key, what)
     for i, (c, o) in enumerate(zip(cases, obs)):
         if isinstance(o, dict) and "__harness_exc__" in o:
+            o = o.get("observed")
+            if o is None:
+                continue
+        try:
+            vs0 = mod.oracle(c, o) or []
+        except Exception as e:
+            if i not in disagreements:
+                disagreements.append(i)
+            obs[i] = {"__harness_exc__": f"oracle: {type(e).__name__}: {e}", "__tb__": traceback.format_exc()[-800:], "observed": o}
             continue
-        for v in (mod.oracle(c, o) or []):
+        for v in vs0:
             viol.append((i, v["key"], v["what"]))
 
     broken = list(pr["broken"])
@@ -392,7 +406,10 @@ def main():
             o = run_impl_safe(mod, c)
             if isinstance(o, dict) and "__harness_exc__" in o:
                 continue
-            vs = [v for v in (mod.oracle(c, o) or []) if v["key"] not in known]
+            try:
+                vs = [v for v in (mod.oracle(c, o) or []) if v["key"] not in known]
+            except Exception:
+                continue
             if vs:
                 cases.append(c); obs.append(o)
                 new_viol.append((len(cases) - 1, vs[0]["key"], vs[0]["what"]))
